@@ -37,6 +37,179 @@ def slice_start(e, name):
     raise Refuse(f"expected {name}[k:], got {ast.unparse(e)}")
 
 
+# ------------------------------------------------------------------ abstract interpretation of the cell branch
+TOP = "top"
+
+
+class _Cell:
+    """values: 'none' | ('str', 'EMPTY' | class) | ('float', class) | ('bool', b) | ('int', n | 'pos') | 'inf' | '-inf' | TOP"""
+
+    def __init__(self, var, kind):
+        self.env = {var: ("str", kind)}
+        self.var = var
+        self.appended = []
+
+    def ev(self, e):
+        if isinstance(e, ast.Constant):
+            if e.value is None:
+                return "none"
+            if isinstance(e.value, bool):
+                return ("bool", e.value)
+            if isinstance(e.value, int):
+                return ("int", e.value)
+            if isinstance(e.value, str):
+                return ("str", "EMPTY") if e.value == "" else TOP
+            return TOP
+        if isinstance(e, ast.Name):
+            return self.env.get(e.id, TOP)
+        src = ast.unparse(e).replace(" ", "")
+        if src in ("np.inf", "math.inf", "numpy.inf", "float('inf')", 'float("inf")'):
+            return "inf"
+        if src in ("-np.inf", "-math.inf", "-numpy.inf", "float('-inf')", 'float("-inf")'):
+            return "-inf"
+        if src in ("np.nan", "math.nan", "numpy.nan", "float('nan')"):
+            return ("float", "CNan")
+        if isinstance(e, ast.Call):
+            f = ast.unparse(e.func)
+            args = [self.ev(a) for a in e.args]
+            if f == "float" and len(args) == 1 and not e.keywords:
+                v = args[0]
+                if isinstance(v, tuple) and v[0] == "str" and v[1] != "EMPTY":
+                    return ("float", v[1])
+                if isinstance(v, tuple) and v[0] == "float":
+                    return v
+                if v == ("str", "EMPTY"):
+                    raise Refuse("float('') would raise")
+                return TOP
+            if f == "len" and len(args) == 1:
+                v = args[0]
+                if isinstance(v, tuple) and v[0] == "str":
+                    return ("int", 0) if v[1] == "EMPTY" else ("int", "pos")
+                return TOP
+            if f in ("np.isnan", "math.isnan", "numpy.isnan") and len(args) == 1 and isinstance(args[0], tuple) and args[0][0] == "float":
+                return ("bool", args[0][1] == "CNan")
+            if f in ("np.isinf", "math.isinf", "numpy.isinf") and len(args) == 1 and isinstance(args[0], tuple) and args[0][0] == "float":
+                return ("bool", args[0][1] in ("CPInf", "CNInf"))
+            if f in ("np.isfinite", "math.isfinite", "numpy.isfinite") and len(args) == 1 and isinstance(args[0], tuple) and args[0][0] == "float":
+                return ("bool", args[0][1] == "CFin")
+            if f.endswith(".strip") and isinstance(e.func, ast.Attribute) and not e.args:
+                v = self.ev(e.func.value)
+                return v if isinstance(v, tuple) and v[0] == "str" else TOP
+            return TOP
+        if isinstance(e, ast.UnaryOp) and isinstance(e.op, ast.Not):
+            t = self.truth(e.operand)
+            return TOP if t is None else ("bool", not t)
+        if isinstance(e, ast.BoolOp):
+            isand = isinstance(e.op, ast.And)
+            unknown = False
+            for v in e.values:
+                t = self.truth(v)
+                if t is None:
+                    unknown = True
+                elif t != isand:            # False under `and`, True under `or`: decided (operands before it were evaluated without effect)
+                    return ("bool", t) if not unknown else TOP
+            return TOP if unknown else ("bool", isand)
+        if isinstance(e, ast.IfExp):
+            t = self.truth(e.test)
+            if t is None:
+                return TOP
+            return self.ev(e.body if t else e.orelse)
+        if isinstance(e, ast.Compare) and len(e.ops) == 1:
+            return self.cmp(e.ops[0], self.ev(e.left), self.ev(e.comparators[0]))
+        return TOP
+
+    ORDER = {"CNInf": -2, "CFin": 0, "CPInf": 2}
+
+    def cmp(self, op, l, r):
+        if isinstance(op, (ast.Is, ast.IsNot)) and (l == "none" or r == "none"):
+            other = r if l == "none" else l
+            if other == TOP:
+                return TOP
+            same = other == "none"
+            return ("bool", same if isinstance(op, ast.Is) else not same)
+        if isinstance(op, (ast.Eq, ast.NotEq)) and isinstance(l, tuple) and isinstance(r, tuple) and l[0] == r[0] == "str":
+            if l[1] == "EMPTY" or r[1] == "EMPTY":
+                same = l[1] == r[1]
+                return ("bool", same if isinstance(op, ast.Eq) else not same)
+            return TOP
+        if isinstance(l, tuple) and l[0] == "int" and isinstance(r, tuple) and r[0] == "int" and isinstance(r[1], int):
+            n, k = l[1], r[1]
+            if n == "pos":            # some integer >= 1
+                table = {ast.Gt: True if k <= 0 else None, ast.GtE: True if k <= 1 else None, ast.NotEq: True if k <= 0 else None,
+                         ast.Eq: False if k <= 0 else None, ast.Lt: False if k <= 1 else None, ast.LtE: False if k <= 0 else None}
+                t = table.get(type(op))
+                return TOP if t is None else ("bool", t)
+            t = {ast.Gt: n > k, ast.GtE: n >= k, ast.NotEq: n != k, ast.Eq: n == k, ast.Lt: n < k, ast.LtE: n <= k}.get(type(op))
+            return TOP if t is None else ("bool", t)
+        # a float of a known class against an infinity
+        def pos(v):
+            if v == "inf":
+                return 2
+            if v == "-inf":
+                return -2
+            if isinstance(v, tuple) and v[0] == "float" and v[1] in self.ORDER:
+                return self.ORDER[v[1]]
+            return None
+        nan = (isinstance(l, tuple) and l == ("float", "CNan")) or (isinstance(r, tuple) and r == ("float", "CNan"))
+        if nan and (l in ("inf", "-inf") or r in ("inf", "-inf")):
+            return ("bool", isinstance(op, ast.NotEq))
+        a, b = pos(l), pos(r)
+        if a is not None and b is not None and (l in ("inf", "-inf") or r in ("inf", "-inf")):
+            t = {ast.Gt: a > b, ast.GtE: a >= b, ast.NotEq: a != b, ast.Eq: a == b, ast.Lt: a < b, ast.LtE: a <= b}.get(type(op))
+            return TOP if t is None else ("bool", t)
+        return TOP
+
+    def truth(self, e):
+        v = self.ev(e)
+        if v == "none":
+            return False
+        if isinstance(v, tuple):
+            if v[0] == "bool":
+                return v[1]
+            if v[0] == "str":
+                return v[1] != "EMPTY"
+            if v[0] == "int":
+                return v[1] != 0
+        return None
+
+    def mentions(self, node):
+        tracked = {k for k, v in self.env.items() if v != TOP}
+        return any(isinstance(n, ast.Name) and n.id in tracked for n in ast.walk(node)) or ".append(" in ast.unparse(node)
+
+    def run(self, stmts):
+        for s in stmts:
+            if isinstance(s, ast.Assign) and len(s.targets) == 1 and isinstance(s.targets[0], ast.Name):
+                self.env[s.targets[0].id] = self.ev(s.value)
+            elif isinstance(s, ast.AnnAssign) and isinstance(s.target, ast.Name) and s.value is not None:
+                self.env[s.target.id] = self.ev(s.value)
+            elif isinstance(s, ast.If):
+                t = self.truth(s.test)
+                if t is None:
+                    if self.mentions(s):
+                        raise Refuse("cell branch: undecided test " + ast.unparse(s.test)[:80])
+                    continue
+                self.run(s.body if t else s.orelse)
+            elif isinstance(s, ast.Expr) and isinstance(s.value, ast.Call) and isinstance(s.value.func, ast.Attribute) and s.value.func.attr == "append":
+                tgt = ast.unparse(s.value.func.value)
+                if tgt.startswith("value_dict[") and len(s.value.args) == 1:
+                    self.appended.append(self.ev(s.value.args[0]))
+                elif self.mentions(s):
+                    raise Refuse("cell branch: append to " + tgt)
+            elif isinstance(s, (ast.Pass, ast.Continue)):
+                if isinstance(s, ast.Continue):
+                    return
+            elif self.mentions(s) and not (isinstance(s, ast.Assign) and not any(isinstance(n, ast.Name) and n.id == self.var for n in ast.walk(s.value))):
+                raise Refuse("cell branch: statement " + ast.unparse(s)[:80])
+
+
+def cell_outcome(stmts, var, kind):
+    c = _Cell(var, kind)
+    c.run(stmts)
+    if len(c.appended) != 1:
+        raise Refuse(f"a cell ({kind}) is stored {len(c.appended)} times")
+    return c.appended[0]
+
+
 # ------------------------------------------------------------------ value condition -> vclass -> bool
 def cond_expr(e, var):
     """boolean expression over `var` -> Coq term over (c : vclass)"""
@@ -197,20 +370,18 @@ def stat_parse():
     ib = strip_doc(il.body)
     if not any(isinstance(s, ast.Assign) and ast.unparse(s.value) == f"keys_in_order[{idx}]" for s in ib):
         raise Refuse("cell key is not keys_in_order[idx]")
-    ifs = [s for s in ib if isinstance(s, ast.If) and ast.unparse(s.test) in (f"len({var}) > 0", f"{var} != ''", f"len({var}) != 0", var)]
-    if len(ifs) != 1:
-        raise Refuse("empty-cell test")
-    top = ifs[0]
-    if not (len(top.orelse) == 1 and is_append(top.orelse[0], is_none)):
-        raise Refuse("empty cell does not append None")
+    # what is stored for a cell, by abstract interpretation of the loop body over the five kinds of cells (empty; a number text whose
+    # float is finite / nan / +inf / -inf): independent of how the branch is spelled
+    res = {k: cell_outcome(ib, var, k) for k in ("EMPTY", "CFin", "CNan", "CPInf", "CNInf")}
+    if res["EMPTY"] != "none":
+        raise Refuse("an empty cell is stored as " + str(res["EMPTY"]))
     out.append("Definition gen_empty_is_missing : bool := true.")
-    tb = strip_doc(top.body)
-    if not (len(tb) == 2 and isinstance(tb[0], ast.Assign) and ast.unparse(tb[0]) == f"{var} = float({var})" and isinstance(tb[1], ast.If)):
-        raise Refuse("non-empty cell: expected value = float(value); if ...")
-    ci = tb[1]
-    if not (len(ci.body) == 1 and is_append(ci.body[0], is_value(var)) and len(ci.orelse) == 1 and is_append(ci.orelse[0], is_none)):
-        raise Refuse("condition branches do not append value / None")
-    out.append(f"Definition gen_keep (c : vclass) : bool := {cond_expr(ci.test, var)}.")
+    keepb = {}
+    for k in ("CFin", "CNan", "CPInf", "CNInf"):
+        if res[k] not in ("none", ("float", k)):
+            raise Refuse(f"a cell whose number is {k} is stored as {res[k]}")
+        keepb[k] = "true" if res[k] != "none" else "false"
+    out.append("Definition gen_keep (c : vclass) : bool := match c with " + " | ".join(f"{k} => {v}" for k, v in keepb.items()) + " | CNone => false end.")
 
     # ---- (c) ValueSummary
     init = find_func(tree, "__init__", "ValueSummary")
@@ -294,9 +465,11 @@ def stat_parse():
         raise Refuse("remove_nones argument")
     gb = strip_doc(g.body)
     last2 = gb[-2:]
-    if not (isinstance(last2[0], ast.If) and ast.unparse(last2[0].test) == "not remove_nones"
-            and ast.unparse(last2[0].body[0]) == "return self.__value_dict[group][metric]"
-            and ast.unparse(last2[1]) == "return [i for i in self.__value_dict[group][metric] if i is not None]"):
+    RAW, FILT = "return self.__value_dict[group][metric]", "return [i for i in self.__value_dict[group][metric] if i is not None]"
+    ok = isinstance(last2[0], ast.If) and not last2[0].orelse and len(last2[0].body) == 1 and (
+        (ast.unparse(last2[0].test) == "not remove_nones" and ast.unparse(last2[0].body[0]) == RAW and ast.unparse(last2[1]) == FILT)
+        or (ast.unparse(last2[0].test) == "remove_nones" and ast.unparse(last2[0].body[0]) == FILT and ast.unparse(last2[1]) == RAW))
+    if not ok:
         raise Refuse("get body")
     out.append(f"Definition gen_summary_removes_nones : bool := {str(flag).lower()}.")
     return "\n".join(out) + "\n"
